@@ -93,12 +93,6 @@ func runC14(p *core.Program, r *core.Report) {
 	var pairs []codecPair
 	if w, rd := p.Method("util/hll", "HyperLogLog", "GetBytes"), p.Func("util/hll", "BuildHyperLogLog"); w != nil && rd != nil {
 		wo, _ := x.LocalRoots(w)
-		if len(wo) == 0 {
-			// the bytes laid out with encoding/binary into a buffer the function returns
-			if br := x.ByteRoot(w); br != nil {
-				wo = []types.Object{br}
-			}
-		}
 		_, ri := x.LocalRoots(rd)
 		if len(wo) == 1 && len(ri) == 1 {
 			pairs = append(pairs, codecPair{W: w, R: rd, WS: wo[0], RS: ri[0], Name: core.FuncName(w.Obj) + " ~ " + core.FuncName(rd.Obj)})
